@@ -124,8 +124,8 @@ impl Property for C19 {
     fn params(&self, tier: Tier) -> Params {
         Params {
             cases: match tier {
-                Tier::Quick => 2_000,
-                Tier::Thorough => 40_000,
+                Tier::Quick => 20_000,
+                Tier::Thorough => 300_000,
             },
             max_bytes: 256,
             timeout: Duration::from_secs(30),
